@@ -245,7 +245,7 @@ def verify_functions(qualnames, timeout_ms=10000, use_cvc5=True, procs=None, mut
         for k in range(n):
             jobs.append((q, timeout_ms, use_cvc5, mutate, k, n))
     procs = procs or min(14, max(1, len(jobs)))
-    raw = run_jobs(jobs, procs, float(os.environ.get("PYVC_JOB_DEADLINE_S", "1500")))
+    raw = run_jobs(jobs, procs, float(os.environ.get("PYVC_JOB_DEADLINE_S", "600")))
     merged = {}
     for r in raw:
         m = merged.get(r["func"])
